@@ -8,8 +8,8 @@ package main
 // ucon.Server.verifyHeader is mirrored here because core.insertChain's error
 // dispatch depends on it: the order "future, signature, unknown ancestor,
 // exist canonical, consensus field", the use of the preceding headers of the
-// batch as parents, and VerifySeal / VerifySideChainHeader not re-checking the
-// cascading fields.
+// batch as parents, VerifySeal / VerifySideChainHeader not re-checking the
+// cascading fields, and all three checking the signature.
 //
 // VerifyHeaders is computed eagerly (all verdicts at the time of the call, i.e.
 // on the chain as it is when insertChain starts).  The real engine verifies in
@@ -35,7 +35,7 @@ import (
 
 const (
 	hvGood    = 0
-	hvBadSig  = 1 // rejected by verifyHeader and VerifySeal (signature), not by VerifySideChainHeader
+	hvBadSig  = 1 // rejected by the signature check: verifyHeader, VerifySeal, VerifySideChainHeader
 	hvBadCons = 2 // rejected by the consensus-field check: verifyHeader (after the cascading checks), VerifySeal, VerifySideChainHeader
 	hvFuture  = 3 // verifyHeader answers ErrFutureBlock
 )
@@ -134,6 +134,9 @@ func (e *testEngine) VerifySideChainHeader(cp *params.CaravelParams, seedHeader 
 	header := block.Header()
 	if header.Number.Uint64() != parentHeader.Number.Uint64()+1 || header.ParentHash != parentHeader.Hash() {
 		return consensus.ErrUnknownAncestor
+	}
+	if e.flags[header.Hash()] == hvBadSig { // verifySignature
+		return errBadSig
 	}
 	if seedHeader == nil {
 		return errors.New("c11: nil seed header")
